@@ -117,3 +117,22 @@ Theorem C06_source_thin_bodies :
   thin_of "DoubleEndedIterator for GenericArrayIter<T,N>" "next_back" = Some "if self . index < self . index_back { self . index_back -= 1 ; unsafe { Some (ptr :: read (self . array . get_unchecked (self . index_back))) } } else { None }" /\
   thin_of "ExactSizeIterator for GenericArrayIter<T,N>" "len" = Some "self . index_back - self . index".
 Proof. repeat split. Qed.
+
+(* ---- T2: the bounds of the trait impls this property's operations come from, as they stand in the source now
+        (coq/gen/GenSigs.v gen_impl_bounds): code that is generic over the lengths / element type and states
+        exactly these bounds can call them ---- *)
+From Coq Require Import String.
+From GA Require Import SigDefs.
+From GAGen Require Import GenSigs.
+Local Open Scope string_scope.
+
+Theorem C06_source_impl_bounds :
+  bounds_of "IntoIterator for GenericArray<T,N>" = Some ["N:ArrayLength"] /\
+  bounds_of "fmt::Debug for GenericArrayIter<T,N>" = Some ["N:ArrayLength"; "T:fmt::Debug"] /\
+  bounds_of "Drop for GenericArrayIter<T,N>" = Some ["N:ArrayLength"] /\
+  bounds_of "Clone for GenericArrayIter<T,N>" = Some ["N:ArrayLength"; "T:Clone"] /\
+  bounds_of "Iterator for GenericArrayIter<T,N>" = Some ["N:ArrayLength"] /\
+  bounds_of "DoubleEndedIterator for GenericArrayIter<T,N>" = Some ["N:ArrayLength"] /\
+  bounds_of "ExactSizeIterator for GenericArrayIter<T,N>" = Some ["N:ArrayLength"] /\
+  bounds_of "FusedIterator for GenericArrayIter<T,N>" = Some ["N:ArrayLength"].
+Proof. repeat split. Qed.
